@@ -518,6 +518,7 @@ func (x *Exec) copyBytes(st *State, dKey string, dArr, dOff *Term, sKey string, 
 
 func (x *Exec) doMakeInterface(st *State, i *ssa.MakeInterface) {
 	v := x.val(st, i.X)
+	st.markEscaped(v)
 	xt := i.X.Type()
 	// references keep their identity; other values are boxed into a fresh object whose dynamic
 	// type tag and payload are recorded.
